@@ -32,6 +32,7 @@ type pSite struct {
 type pCtx struct {
 	opProps map[string][]string // operator contract name -> its props
 	curDelegProps []string
+	curExtra      []string // properties of the plugin the current site belongs to (C18 data plugins, C19 prometheus, C20 rate limiters)
 	kc     *kernelCtx
 	units  map[string]*Unit
 	annots map[string]*Block // site annotations by site name
@@ -274,6 +275,10 @@ func (s *pSite) role(fn *ssa.Function) string {
 }
 
 func (pc *pCtx) add(prop []string, name, clause string, ok bool, note string, pos string) {
+	if len(pc.curExtra) > 0 {
+		// a site of a plugin package: the plugin's own property also asks for the core contract there
+		prop = append(append([]string{}, prop...), pc.curExtra...)
+	}
 	status := "discharged"
 	if !ok {
 		status = "failed"
@@ -299,13 +304,30 @@ func runProtocol(kc *kernelCtx, blocks []*Block, only string, want map[string]bo
 		if only != "" && !strings.Contains(s.Name, only) {
 			continue
 		}
-		if on("C09") {
+		pc.curExtra = nil
+		plug := ""
+		if s.Subscribe != nil && s.Subscribe.Pkg != nil {
+			pp := s.Subscribe.Pkg.Pkg.Path()
+			switch {
+			case strings.Contains(pp, "/ee/plugins/prometheus"):
+				plug = "C19"
+			case strings.Contains(pp, "/plugins/ratelimit"):
+				plug = "C20"
+			case strings.Contains(pp, "/plugins/"):
+				plug = "C18"
+			}
+		}
+		if plug != "" {
+			pc.curExtra = []string{plug}
+		}
+		onPlug := plug != "" && on(plug)
+		if on("C09") || onPlug {
 			pc.p1Context(s)
 		}
-		if on("C12") {
+		if on("C12") || onPlug {
 			pc.p3Frame(s)
 		}
-		if on("C03") || on("C14") {
+		if on("C03") || on("C14") || onPlug {
 			pc.p2Release(s)
 			pc.p2cUnconditionalRelease(s)
 		}
@@ -325,6 +347,7 @@ func runProtocol(kc *kernelCtx, blocks []*Block, only string, want map[string]bo
 			pc.p7Lockset(s)
 		}
 	}
+	pc.curExtra = nil
 	if on("C12") {
 		pc.p3Lazy(sites, only)
 	}
